@@ -32,8 +32,19 @@ fn any_options() -> ProofOptions {
     let fl = vs::any_u8();
     let rl = vs::any_u8();
     vs::assume(q >= 1 && q <= 255 && bl >= 1 && bl <= 7 && g <= 32 && fl >= 1 && fl <= 4 && rl <= 8);
+    // the batching methods are not among the parameters the seed must bind, but they are free: the listed
+    // parameters must be bound whatever the batching methods are (a packing that shares bits with them is a collision)
     ProofOptions::new(q, 1usize << bl, g, any_ext(), 1usize << fl, (1usize << rl) - 1,
-        BatchingMethod::Linear, BatchingMethod::Linear)
+        any_batching(), any_batching())
+}
+fn any_batching() -> BatchingMethod {
+    let k = vs::any_u8();
+    vs::assume(k < 3);
+    match k {
+        0 => BatchingMethod::Linear,
+        1 => BatchingMethod::Algebraic,
+        _ => BatchingMethod::Horner,
+    }
 }
 fn any_trace_info(meta: Vec<u8>) -> TraceInfo {
     let mw = vs::any_usize();
@@ -46,7 +57,7 @@ fn any_trace_info(meta: Vec<u8>) -> TraceInfo {
     TraceInfo::new_multi_segment(mw, aw, ar, 1usize << lg, meta)
 }
 
-//# harness: fn=Context::to_elements, TraceInfo::to_elements, ProofOptions::to_elements; label=complete in every scalar parameter of both contexts (metadata empty); tier=quick; timeout=400; uses=any_options,any_trace_info
+//# harness: fn=Context::to_elements, TraceInfo::to_elements, ProofOptions::to_elements; label=complete in every scalar parameter and batching method of both contexts (metadata empty); tier=quick; timeout=900; uses=any_options,any_trace_info,any_batching,any_ext
 #[cfg_attr(kani, kani::proof)]
 #[cfg_attr(kani, kani::unwind(20))]
 #[cfg_attr(kani, kani::stub(alloc::fmt::format, vs::fake_format))]
